@@ -759,6 +759,7 @@ class Interp:
         return None
 
     def eval_construct(self, n, st):
+        self.check_raw_extents(n, st)
         if is_container_type(n.get("class", "")) or n.get("class") in ("QString", "QByteArray"):
             self.cval(n, st)
             return None
@@ -768,8 +769,55 @@ class Interp:
         self.env.record_call_args(self, n, st)
         return None
 
+    PTR_CALLS = ("constData", "data", "unicode", "utf16", "constBegin", "cbegin", "begin", "c_str")
+
+    def check_raw_extents(self, n, st):
+        """(pointer, count) argument pairs: when the pointer is the buffer of a container the analysis tracks
+        (`blanks.constData()`), reading `count` elements from it must stay inside that container"""
+        args = n.get("args", [])
+        for i in range(len(args) - 1):
+            a, c = args[i], args[i + 1]
+            ta, tc = typ(a), typ(c)
+            if not ta.rstrip().endswith("*") or not is_int_type(tc):
+                continue
+            src = skip_copies(a)
+            if isinstance(src, dict) and src.get("k") == "ref" and src.get("dk") == "local":
+                from .facts import single_assignment_init
+                ini = single_assignment_init(self.fn, src.get("decl"))
+                if isinstance(ini, dict):
+                    src = skip_copies(ini)
+            off = None
+            if isinstance(src, dict) and src.get("k") == "binop" and src.get("op") == "+":
+                off = src.get("rhs")
+                src = skip_copies(src.get("lhs"))
+            if not (isinstance(src, dict) and src.get("k") == "call" and src.get("ck") == "member" and (src.get("callee") or "").split("::")[-1] in self.PTR_CALLS and not src.get("args")):
+                continue
+            obj = src.get("obj")
+            if not is_container_type(typ(obj)):
+                continue
+            ls = self.len_sym(obj, st)
+            cnt = self.eval(c, st)
+            if cnt is not None and cnt.is_const() and cnt.k < 0:
+                continue    # -1: "up to the terminator"
+            what = "%s elements read from %s%s" % (describe(c), describe(a), "")
+            key = "access|%s|%s" % (self.fn.name.split("::")[-1], what)
+            if ls is None or cnt is None:
+                self.ob("access", n, None, "%s: %s" % (what, "the container is not tracked" if ls is None else "the count is not an integer expression the analysis models"), key)
+                continue
+            o = self.eval(off, st) if off is not None else Lin.const(0)
+            if o is None:
+                self.ob("access", n, None, "%s: the offset is not modelled" % what, key)
+                continue
+            tot = cnt.add(o)
+            rh = self.prove_all(st, lambda d: (lin_upper(d, tot.add(Lin.sym(ls), -1)) <= 0, tot.syms()))
+            rl = self.prove_all(st, lambda d: (lin_lower(d, cnt) >= 0 and lin_lower(d, o) >= 0, tot.syms()))
+            ok = False if (rl is False or rh is False) else None if (rl is None or rh is None) else True
+            self.ob("access", n, ok, "%s stay inside it%s" % (what, "" if ok else ": the count may exceed the %s elements of the buffer (no bound count <= size)" %
+                    ("%d" % max(d.upper(ls) for d in st.dbms()) if all(d.upper(ls) < INF for d in st.dbms()) else "available")), key)
+
     # ------------------------------------------------------------------ calls
     def eval_call(self, n, st):
+        self.check_raw_extents(n, st)
         ck = n.get("ck")
         callee = n.get("callee") or ""
         short = callee.split("::")[-1]
